@@ -118,12 +118,14 @@ theorem opLock_waiters (db : DB) (c : Cmd) :
     rw [hb] at hw; simp only [applyLock] at hw
     rcases mem_allW_setKey hw with h1 | h1
     · refine Or.inl (mem_allW_of_keys_eq ?_ h1); simp [wake_keys, grantHold_db_keys, updateHold_db_keys]
-    · exact Or.inl (mem_getKey_waiters h1)
+    · have h2 := wake_waiters _ _ _ w h1
+      exact Or.inl (mem_getKey_waiters (n := c.key) h2)
   | relock h' =>
     rw [hb] at hw; simp only [applyLock] at hw
     rcases mem_allW_setKey hw with h1 | h1
     · refine Or.inl (mem_allW_of_keys_eq ?_ h1); simp [wake_keys, grantHold_db_keys, updateHold_db_keys]
-    · exact Or.inl (mem_getKey_waiters h1)
+    · have h2 := wake_waiters _ _ _ w h1
+      exact Or.inl (mem_getKey_waiters (n := c.key) h2)
   | grant =>
     rw [hb] at hw; simp only [applyLock] at hw
     obtain ⟨_, _, _, _, _, hws, _, _⟩ := grantHold_holders db (db.getKey c.key) c
@@ -160,8 +162,9 @@ theorem opUnlock_waiters (db : DB) (c : Cmd) : ∀ w ∈ allW (opUnlock db c).1,
   | cancel w0 =>
     rw [hb] at hw; simp only [applyUnlock] at hw
     rcases mem_allW_setKey hw with h1 | h1
-    · exact h1
-    · exact mem_getKey_waiters (mem_removeWaiter h1)
+    · refine mem_allW_of_keys_eq ?_ h1; simp [wake_keys]
+    · have h2 := mem_removeWaiter (wake_waiters _ _ _ w h1)
+      exact mem_getKey_waiters (n := c.key) h2
   | dec h' c' =>
     rw [hb] at hw; simp only [applyUnlock] at hw
     rcases mem_allW_setKey hw with h1 | h1
